@@ -130,6 +130,34 @@ def exhaustive_histories(cfg: str) -> List[tuple]:
     return sorted(res)
 
 
+def inductive(ctx: Ctx) -> Dict[str, Any]:
+    """Apalache (thorough tier): the contract, strengthened by the shape of the two index lists, is an inductive invariant of the
+    registry model's step relation (spec/RegistryInd.tla, a typed restatement over 3 names x 2 types x 2 hosts): it holds after
+    histories of any length, not only the bounded ones TLC explores.  The defect step relation must break it."""
+    import os
+    import shutil
+    import subprocess
+    import tempfile
+    out = tempfile.mkdtemp(prefix='apa.', dir=tlc.WORK if os.path.isdir(tlc.WORK) else None)
+    spec = os.path.join(tlc.SPEC, 'RegistryInd.tla')
+
+    def apa(args: List[str]) -> str:
+        r = subprocess.run(['apalache-mc', 'check'] + args + ['--out-dir=' + out, spec], capture_output=True, text=True, timeout=1800)
+        return r.stdout + r.stderr
+    try:
+        a = apa(['--init=Init', '--inv=IndInv', '--length=0'])
+        b = apa(['--init=IndInit', '--inv=IndInv', '--length=1'])
+        c = apa(['--init=IndInit', '--next=NextDefect', '--inv=IndInv', '--length=1'])
+    finally:
+        shutil.rmtree(out, ignore_errors=True)
+    if 'The outcome is: NoError' not in a or 'The outcome is: NoError' not in b:
+        raise Machinery('Apalache: IndInv is not established / not inductive for RegistryInd.tla:\n%s\n%s' % (a[-1500:], b[-1500:]))
+    if 'The outcome is: Error' not in c:
+        raise Machinery('Apalache: the defect step relation NextDefect must break IndInv:\n%s' % c[-1500:])
+    return {'registry_inductive_invariant': 'Apalache 0.58: Init => IndInv; IndInv /\\ Next => IndInv\' (unbounded histories, 3 names x 2 types x 2 '
+                                            'hosts); NextDefect (buckets before the duplicate check) violates it'}
+
+
 def run(ctx: Ctx, own: str, replay_scs: Any = None) -> None:
     from props import trace_run
     predicted: Dict[str, list] = {}
@@ -150,6 +178,8 @@ def run(ctx: Ctx, own: str, replay_scs: Any = None) -> None:
             sid = '%s-reg-%d' % (own.lower(), k)
             scs.append({'id': sid, 'names': ['n1', 'n2'], 'ops': [list(x[:4]) for x in h], 'variant': k % 12})
             predicted[sid] = [x[4] for x in h]
+        if ctx.thorough or __import__('os').environ.get('VERIF_APALACHE'):
+            ctx.coverage.update(inductive(ctx))
         ctx.coverage.update({'registry_model_states': r['states'], 'registry_model_distinct': r['distinct'], 'registry_model_actions': r['actions'],
                              'registry_defect_configs_violate': ['MC_Registry_buckets_defect', 'MC_Registry_remove_defect']})
     else:
